@@ -182,6 +182,12 @@ def contexts(x, default=None):
         ('impl', Seq((M('pad', B), M('x', Tag(5, x, mode='IMPLICIT')), M('tail', B)))),
         ('expl', Seq((M('pad', B), M('x', Tag(5, x, mode='EXPLICIT')), M('tail', B)))),
         ('top-expl', Tag(3, x, cls='APPLICATION', mode='EXPLICIT')),
+        # x directly BEFORE the structures with cursor logic (extension bit set after the fact,
+        # presence bitmap, open-type wrapped additions): a long x makes the encoder's accumulator
+        # roll over between "remember the position" and "patch the bit"
+        ('seq-before-ext', Seq((M('x', x),
+                                M('e', Seq((M('b', B),), ext=True, adds=(M('y', B, 'O'),))),
+                                M('c', Cho((M('p', B),), ext=True, adds=(M('q', B),)))))),
     ]
     if default is not None:
         out.append(('seq-def', Seq((M('pad', B), M('x', x, 'D', default=default), M('tail', B)))))
